@@ -72,8 +72,10 @@ WellFormed(c) == TargetsExist(c) /\ Terminated(c) /\ DefBeforeUse(c)
 (***************************************************************************)
 ConstVal(a) == CASE a.ty = "bool" -> VBool(a.v) [] a.ty = "int" -> VInt(a.v) [] a.ty = "double" -> VDbl(a.q)
                  [] a.ty \in {"cstr", "qstr"} -> VStr(a.v) [] a.ty = "null" -> VPtr("null") [] a.ty = "emptylist" -> VList(<<>>)
+\* the IR names an enum with its class qualifier; Lang.tla's values carry the bare name
+EnumShort(e) == CASE e = "TSource::Mode" -> "Mode" [] e = "TSource::Opt" -> "Opt" [] e = "TSource::Opts" -> "Opts" [] OTHER -> e
 OpVal(a, loc) == CASE a.k = "const" -> ConstVal(a)
-                   [] a.k = "enum" -> VEnum(a.e, EnumVal[a.v])
+                   [] a.k = "enum" -> VEnum(EnumShort(a.e), EnumVal[a.v])
                    [] a.k = "loc" -> loc[a.i + 1]
                    [] a.k = "obj" -> VPtr(a.n)
                    [] a.k = "void" -> Void
